@@ -3,7 +3,7 @@ from specs.common import run, ASSUME_COMMON
 # Floors are at most one third of the minimum seen over VERIF_SEED in {1,2,3,7,42,1000,65537,2^31-1} on the
 # unchanged tree.  composite_subsets_enumerated is not statistical: cases 0..102 walk the 206 ordered subsets
 # exactly once (two per case), so 206 is the exact count of a complete enumeration.
-_Q = {
+_Q = {"concurrent_cases_ge4_threads": 15, 
     "set_present_key": 5000, "delete_present_key": 2500,
     "roundtrip_judged": 8000, "roundtrip_with_metadata": 4000, "roundtrip_with_escapes": 6000,
     "roundtrip_ge8_members": 300, "roundtrip_179_or_180_members": 15, "reference_encoding_extracted": 6000,
@@ -18,7 +18,10 @@ _Q = {
 _T = {k: (v if k == "composite_subsets_enumerated" else v * 60) for k, v in _Q.items()}
 
 SPEC = {
-    "runs": [run("e1-model", "c15_baggage", "asan", 5000, 400000, need_lib=False)],
+    "runs": [run("e1-model", "c15_baggage", "asan", 5000, 400000, need_lib=False),
+             # the shared propagator objects used by 2..8 threads at once (TSan + perturbation shim)
+             run("e2-threads", "prop_threads", "tsan", 60, 3000, sq=2, st=8, need_lib=False, params={"prop": "C15"},
+                 sources=["harness/prop_threads.cc", "vf/shim/vf_runtime.cc"])],
     "floors": {"quick": _Q, "thorough": _T},
     "engine": "E1 model-oracle",
     "technique": ("reference-model oracle in lock-step with the real Baggage / BaggagePropagator / CompositePropagator under "
@@ -53,6 +56,7 @@ SPEC = {
              "case is non-trivial if it executed a Set/Delete/round trip or parsed a header; distinct = distinct hash of "
              "the operation/argument sequence or of the header bytes."),
     "coverage_extra": {"exhaustive_subspaces": {"composite ordered subsets of size <= 4 of the 5 built-in propagators": 206}},
+    "rule_extra": ' Run e2-threads: case j = 2..8 threads doing 20..200 round trips each through ONE shared BaggagePropagator and ONE shared CompositePropagator (W3C + baggage), 1..6 entries with characters that need escaping, under TSan with seeded yields/sleeps; each thread must read back its own entries and ids.',
     "assumptions": ASSUME_COMMON + [
         "domain restriction of the statement applied literally: a value with ',' after its first ';' or with metadata ending in a blank is counted and not judged for the round trip; baggages whose header exceeds 180 members / 4096-byte member / 8192 bytes likewise",
         "Set/Delete with non-printable or empty keys/values are outside the statement: only 'no invalid member is stored' and 'receiver unchanged' are judged",
